@@ -31,9 +31,25 @@ def field_value_units():
     return out
 
 
+def line_frames(year):
+    """... and only if the lines themselves are pure readers that see the stores by key only (a missing key aborts and parks the line;
+    iterating over an accessor would compute from whatever is loaded at that moment): the per-line frames of C05, one obligation per
+    line that fails them, one summary obligation per year otherwise."""
+    from . import c05
+    obs = c05.purity(year)
+    bad = [o for o in obs if o.status != oblig.DISCHARGED]
+    for o in bad:
+        o.id = o.id.replace('C05/', 'C03/')
+    if bad:
+        return bad
+    return [oblig.Ob(id=f'C03/{year}/pure/all-lines', backend='ast-scan', function=f'every line definition of {year}',
+                     clause='every line and the helpers it calls only read i / v by key, store nothing outside locals and iterate over no hash-ordered set', vc=f'{len(obs)} line(s)')]
+
+
 def extra_tasks(tier, seed):
     from ..oblig import Task
-    return [Task('helpers', helper_frames), Task('fieldvalue', field_value_units, weight=5)]
+    from .. import extract
+    return [Task('helpers', helper_frames), Task('fieldvalue', field_value_units, weight=5)] + [Task(f'lineframes/{y}', line_frames, y, weight=3) for y in extract.YEARS]
 
 
 def run(tier, seed, t0):
